@@ -9,31 +9,31 @@ BASE3 = dict(BASE2, CertKeys='{"k1","k2","k3"}')
 BASE3S = dict(BASE3, AppStates='{"s1","s2"}')
 
 
-def gen_cfg(name, consts, classes, depth, sw=False, nidl=False, fallback="FetchAny"):
+def gen_cfg(name, consts, classes, depth, sw=False, nidl=False, fallback="FetchAny", so=False):
     """Write a generator config into spec/ (idempotent) and return its file name."""
     txt = "SPECIFICATION Spec\nCONSTANTS\n"
     for k, v in consts.items():
         txt += "  %s = %s\n" % (k, v)
-    txt += "  Depth = %d\n  Classes = {%s}\n  Fallback = \"%s\"\n  CfgSW = %s\n  CfgNidl = %s\nCHECK_DEADLOCK FALSE\n" % (
-        depth, ",".join('"%s"' % c for c in classes), fallback, "TRUE" if sw else "FALSE", "TRUE" if nidl else "FALSE")
+    txt += "  Depth = %d\n  Classes = {%s}\n  Fallback = \"%s\"\n  CfgSW = %s\n  CfgNidl = %s\n  CfgSO = %s\nCHECK_DEADLOCK FALSE\n" % (
+        depth, ",".join('"%s"' % c for c in classes), fallback, "TRUE" if sw else "FALSE", "TRUE" if nidl else "FALSE", "TRUE" if so else "FALSE")
     return name, txt
 
 
-def beh_cfg(consts, sw=False, nidl=False):
+def beh_cfg(consts, sw=False, nidl=False, so=False, nide=False):
     ck = [x.strip('"') for x in consts["CertKeys"].strip("{}").split(",")]
     tk = [x.strip('"') for x in consts["Tokens"].strip("{}").split(",")]
     # the projection always covers the trace spec's constants (BASE3), whatever subset the behaviour uses
-    return dict(sw=sw, nidl=nidl, certKeys=["k1", "k2", "k3"], tokens=["t1", "t2"])
+    return dict(sw=sw, nidl=nidl, so=so, nide=nide, certKeys=["k1", "k2", "k3"], tokens=["t1", "t2"])
 
 
 GEN_CFGS = {}
 
 
-def G(tag, consts, classes, depth, num, props, sw=False, nidl=False, fallback="FetchAny"):
+def G(tag, consts, classes, depth, num, props, sw=False, nidl=False, fallback="FetchAny", so=False, nide=False):
     name = "RegistryGen_%s.cfg" % tag
-    GEN_CFGS[name] = gen_cfg(name, consts, classes, depth, sw, nidl, fallback)[1]
+    GEN_CFGS[name] = gen_cfg(name, consts, classes, depth, sw, nidl, fallback, so)[1]
     return dict(module="RegistryGen.tla", cfg=name, depth=depth, num=num, props=props, tag=tag,
-                beh_cfg=beh_cfg(consts, sw, nidl))
+                beh_cfg=beh_cfg(consts, sw, nidl, so, nide))
 
 
 def materialise(scr):
@@ -72,6 +72,8 @@ FAMILY = dict(
           dict(quick=150, thorough=3000), ["C01"]),
         G("C01b", BASE3, ["Authorize", "Token", "Remove", "Regw", "FetchAuth", "FetchNear"], 14,
           dict(quick=100, thorough=2000), ["C01"], sw=True),
+        G("C01c", BASE2, ["Authorize", "Remove", "Regw", "FetchAuth", "FetchNear", "FetchNear"], 12,
+          dict(quick=60, thorough=1500), ["C01"], so=True),
         G("C06a", BASE2, ["Token", "Age", "Authorize", "Remove", "FetchAuth", "FetchNear", "Tamper"], 12,
           dict(quick=120, thorough=2500), ["C06"], sw=True),
         G("C06b", BASE2, ["Token", "Age", "Authorize", "FetchAuth", "FetchNear", "Tamper"], 12,
@@ -82,6 +84,8 @@ FAMILY = dict(
           dict(quick=120, thorough=2500), ["C05"], nidl=True),
         G("C05b", BASE3, ["Authorize", "Nid", "Remove", "GenCerts", "GenNear", "KeyKind"], 10,
           dict(quick=60, thorough=1000), ["C05"], nidl=False),
+        G("C05c", BASE3, ["Authorize", "Nid", "Remove", "GenCerts", "GenNear"], 10,
+          dict(quick=50, thorough=1000), ["C05"], nidl=True, nide=True),
         G("C10a", BASE3S, ["Authorize", "Nid", "Prev", "Remove", "Rotate", "RotNear", "Strip"], 12,
           dict(quick=120, thorough=2500), ["C10"], nidl=True),
         G("C10b", BASE3S, ["Authorize", "Prev", "Remove", "Rotate", "RotNear"], 12,
@@ -101,7 +105,7 @@ FAMILY = dict(
 )
 
 MC = {
-    "C01": dict(quick=[("MC_Registry.tla", "MC_Registry_C01q.cfg")], thorough=[("MC_Registry.tla", "MC_Registry_C01.cfg")]),
+    "C01": dict(quick=[("MC_Registry.tla", "MC_Registry_C01q.cfg"), ("MC_Registry.tla", "MC_Registry_C01q_so.cfg")], thorough=[("MC_Registry.tla", "MC_Registry_C01.cfg")]),
     "C06": dict(quick=[("MC_Registry.tla", "MC_Registry_C06q.cfg")], thorough=[("MC_Registry.tla", "MC_Registry_C06.cfg")]),
     "C03": dict(quick=[("MC_Registry.tla", "MC_Registry_C03.cfg")], thorough=[("MC_Registry.tla", "MC_Registry_C03.cfg")]),
     "C05": dict(quick=[("MC_Registry.tla", "MC_Registry_C05q.cfg")], thorough=[("MC_Registry.tla", "MC_Registry_C05.cfg")]),
